@@ -29,7 +29,7 @@ for p in props:
         na.append({'property_id': pid, 'reason': NOT_APPLICABLE.get(pid, 'check not built yet (work in progress)')})
 man = {
     'version': 1,
-    'setup_cmd': 'cd lean && lake build',
+    'setup_cmd': '/venv/bin/python tools/gen_tables.py && cd lean && lake build',
     'hooks': {'guard': 'A5_PY_VERIF', 'enable': 'no in-source hooks: the harness wraps/proxies objects of the imported package at run time',
               'baseline_off_cmd': 'cd /repo && /venv/bin/python -m pytest -ra -q -p no:cacheprovider --timeout=900 --continue-on-collection-errors',
               'source_commits': [], 'add_only': True},
